@@ -1,6 +1,7 @@
 import EupsModel.Lemmas.LockEx
 import EupsModel.Lemmas.LockRes
 import EupsModel.Lemmas.LockAtomic
+import EupsModel.Lemmas.LockPath
 /-! C09 — exclusive database locks exclude every other holder under all interleavings.
 
 Property theorems only.  Model: `Model/Lock.lean` (one transition = one file-system call of one process, in the
@@ -35,7 +36,7 @@ theorem C09_mutex_exclusive_only (kind : Pid → Kind) (lp : Pid → Option Pid)
       cases hpc : (run (init kind lp tries) sched).pc j <;> simp_all [inBody]
     cases hj with
     | inl hj => exact absurd (h.uniq i j (by simp [hi, inside]) (by simp [hj, inside])) hij
-    | inr hj => exact absurd hj (h.noSh j).2.2
+    | inr hj => exact absurd hj (h.noSh j).2.2.1
 
 /-- non-vacuity: three updaters with two attempts each; one of them holds, one has been refused for good -/
 example :
@@ -254,6 +255,92 @@ example :
     s.pc 0 = .hold ∧ s.pc 3 = .hold ∧ s.pc 1 = .done ∧ s.pc 2 = .done ∧
     ([1, 2, 0].foldl phase (init kind lp (fun _ => 1))).pc 0 = .mkdir 0 ∧
     ([1, 2].foldl phase (init kind lp (fun _ => 1))).pc 2 = .hold := by decide
+
+/-! ### several stacks (`EUPS_PATH` with more than one element): `Model/LockPath.lean` -/
+
+section path
+open EupsModel.LockPath
+
+/-- Projection: in a run of the path model — `takeLocks(path)`, body, `giveLocks(locks)`, with the giving-up of
+earlier locks when a later stack is refused — the lock state of every stack is the result of a schedule of the
+single-directory model from its initial state.  So every single-directory theorem above applies to each stack. -/
+theorem C09_path_projection (kind : Pid → Kind) (lp : Pid → Option Pid) (tries : Pid → Nat)
+    (path : Pid → List Dir) (explicit : Pid → Bool) (sched : List Pid) (d : Dir) :
+    ∃ sd, ((mrun (minit kind lp tries path explicit) sched).comp d) = run (init kind lp tries) sd :=
+  mrun_comp_is_run _ sched d
+
+/-- No residue, per stack, every configuration and schedule: a stack with which no process is engaged any more
+holds neither lock directory nor lock files. -/
+theorem C09_path_no_residue_per_stack (kind : Pid → Kind) (lp : Pid → Option Pid) (tries : Pid → Nat)
+    (path : Pid → List Dir) (explicit : Pid → Bool) (sched : List Pid) (d : Dir)
+    (hq : ∀ p, engaged (((mrun (minit kind lp tries path explicit) sched).comp d).pc p) = false) :
+    ((mrun (minit kind lp tries path explicit) sched).comp d).dir = false ∧
+    ((mrun (minit kind lp tries path explicit) sched).comp d).files = [] := by
+  obtain ⟨sd, hsd⟩ := C09_path_projection kind lp tries path explicit sched d
+  rw [hsd] at hq ⊢
+  exact C09_no_residue kind lp tries sd hq
+
+/-- Exclusive requesters only, any number of stacks per command (distinct), every schedule: `MutexM` — no two
+commands whose paths share a stack are in their bodies together. -/
+theorem C09_path_mutex_exclusive_only (kind : Pid → Kind) (lp : Pid → Option Pid) (tries : Pid → Nat)
+    (path : Pid → List Dir) (explicit : Pid → Bool)
+    (hk : ∀ i, kind i = .ex) (hl : ∀ i, lp i = none) (hn : ∀ p, (path p).Nodup) (sched : List Pid) :
+    MutexM (mrun (minit kind lp tries path explicit) sched) := by
+  have h := pinv_mrun _ (pinv_init kind lp tries path explicit hk hl hn) sched
+  generalize mrun (minit kind lp tries path explicit) sched = S at h
+  intro d p q hpq _ hbp hbq _ hdq hp _
+  -- q is in its body, so it holds every stack of its path, d among them
+  have hq : (S.comp d).pc q = .hold := by
+    have hh := h.held q
+    unfold Held at hh
+    cases hc : S.ctl q with
+    | body n reg =>
+      rw [hc] at hh
+      obtain ⟨j, hj, hjd⟩ := List.mem_iff_getElem.mp hdq
+      exact hh.2.2 j d (by omega) (by rw [List.getElem?_eq_getElem hj, hjd])
+    | acq k => rw [hc] at hbq; simp [inBodyM] at hbq
+    | unw j k e => rw [hc] at hbq; simp [inBodyM] at hbq
+    | rel j n m o => rw [hc] at hbq; simp [inBodyM] at hbq
+    | fin o => rw [hc] at hbq; simp [inBodyM] at hbq
+  exact hpq ((h.ex d).uniq p q (by simp [hp, inside]) (by simp [hq, inside]))
+
+/-- Exclusive requesters only, several stacks: when every command has finished — whether it got all its locks, or
+was refused on a later stack after locking earlier ones (the situation of defect D12e) — no stack holds a lock
+directory or a lock file. -/
+theorem C09_path_no_residue_exclusive_only (kind : Pid → Kind) (lp : Pid → Option Pid) (tries : Pid → Nat)
+    (path : Pid → List Dir) (explicit : Pid → Bool)
+    (hk : ∀ i, kind i = .ex) (hl : ∀ i, lp i = none) (hn : ∀ p, (path p).Nodup) (sched : List Pid)
+    (hfin : ∀ p, finished ((mrun (minit kind lp tries path explicit) sched).ctl p) = true) (d : Dir) :
+    ((mrun (minit kind lp tries path explicit) sched).comp d).dir = false ∧
+    ((mrun (minit kind lp tries path explicit) sched).comp d).files = [] := by
+  have h := pinv_mrun _ (pinv_init kind lp tries path explicit hk hl hn) sched
+  generalize mrun (minit kind lp tries path explicit) sched = S at h hfin
+  have hnone : ∀ p, inside ((S.comp d).pc p) = false := by
+    intro p
+    cases hin : inside ((S.comp d).pc p) with
+    | false => rfl
+    | true =>
+      have := h.owes p d hin
+      have hf := hfin p
+      cases hc : S.ctl p <;> simp_all [finished, owed]
+  constructor
+  · cases hd : (S.comp d).dir with
+    | false => rfl
+    | true => obtain ⟨p, hp⟩ := (h.ex d).dirIff.mp hd; rw [hnone p] at hp; exact absurd hp (by simp)
+  · exact (h.ex d).filesN (fun p => not_hasFile_of_not_inside (hnone p))
+
+/-- non-vacuity, and the D12e scenario itself: X (path [1]) holds stack 1; Y (path [0, 1]) locks stack 0, is refused
+on stack 1, gives stack 0 up again and has failed; X finishes; nothing is left on either stack. -/
+example :
+    let path : Pid → List Dir := fun i => if i = 0 then [1] else [0, 1]
+    let S := mrun (minit (fun _ => .ex) (fun _ => none) (fun _ => 0) path (fun _ => true))
+      [0, 0, 0, 1, 1, 1, 1, 1, 1, 1, 1, 1, 1, 1, 0, 0, 0, 0, 0, 0]
+    S.ctl 1 = .fin (.failedAcq .runtime) ∧ S.ctl 0 = .fin .done ∧
+    (S.comp 0).dir = false ∧ (S.comp 1).dir = false ∧
+    ((mrun (minit (fun _ => .ex) (fun _ => none) (fun _ => 0) path (fun _ => true))
+      [0, 0, 0, 1, 1, 1]).comp 0).files = [(.ex, 1)] := by decide
+
+end path
 
 /-- The property as stated is false of the protocol. -/
 theorem C09_mutex_false : ¬ MutexAlways := by
